@@ -78,6 +78,10 @@ theorem own_message_ignored (maxlen : Nat) (id : String) (known : List String) (
   simp only [step] at this ⊢
   simp [this]
 
+/-- the window of the tree at hand is not smaller than the one the guarantee was stated for (200 ids on the pinned tree):
+    `own_message_ignored` then covers every loop-back that has fewer than 200 other ids between registration and arrival -/
+theorem generated_window_at_least_pinned : 200 ≤ Generated.knownIdsMaxlen := by decide
+
 /-- a received id is dispatched at most once while it stays in the window: directly after a dispatch it is known -/
 theorem dispatched_then_known (maxlen : Nat) (id : String) (known : List String) (h : 0 < maxlen)
     (hd : (step maxlen known (.recv id)).2 = true) : id ∈ (step maxlen known (.recv id)).1 := by
